@@ -457,6 +457,11 @@ def rule_r4(facts, col, bodies=None):
                 if need.k == "const" and need.v == 0:
                     col.bad("C09.R4", key, body.where(bb), "waits for 0 samples on an empty window: the wait is satisfied "
                             "immediately and the runner spins", {})
+                elif need.k == "const" and isinstance(need.v, int) and need.v > 1:
+                    col.bad("C09.R4", key, body.where(bb),
+                            "work() only found the window of self.%s EMPTY (it proceeds with a single sample) yet waits for %d: when the "
+                            "peer delivers fewer than that and goes away, the wait reports 'can never be satisfied' and the runner retires "
+                            "the block with samples it could have processed" % (tgt, need.v), {})
                 else:
                     col.ok("C09.R4", key, body.where(bb), "window empty, waits for >= 1")
                 continue
@@ -465,8 +470,14 @@ def rule_r4(facts, col, bodies=None):
             if same_expr(need, px):
                 col.ok("C09.R4", key, body.where(bb), "waits for exactly the tested threshold")
             elif need.k == "const" and px.k == "const" and need.v is not None and px.v is not None:
-                if need.v >= px.v + (0 if strict else 1):
-                    col.ok("C09.R4", key, body.where(bb), "constant need %s >= tested threshold %s" % (need.v, px.v))
+                exact = px.v + (0 if strict else 1)
+                if need.v == exact:
+                    col.ok("C09.R4", key, body.where(bb), "constant need %s == tested threshold" % need.v)
+                elif need.v > exact:
+                    col.bad("C09.R4", key, body.where(bb),
+                            "work() proceeds with %d samples on self.%s but waits for %d: when the peer delivers fewer than that and goes "
+                            "away, the wait reports 'can never be satisfied' and the runner retires the block with samples it could have "
+                            "processed" % (exact, tgt, need.v), {})
                 else:
                     col.bad("C09.R4", key, body.where(bb),
                             "work() needs %s%s samples on self.%s to proceed but says it waits for only %s: the wait is already "
